@@ -154,12 +154,30 @@ func c15CountTable(e *Env, s *Sched) {
 		return
 	}
 	loops := ir.Loops(fn)
+	if len(loops) == 0 {
+		// counting handed to a higher-order helper (`return countFunc(g.Nodes(), (*Node).isRunning)`):
+		// the helper is judged with its parameters bound to this call's arguments
+		if h, call := forwardsTo(fn); h != nil && len(ir.Loops(h)) == 1 {
+			bind := map[ssa.Value]ssa.Value{}
+			for i, p := range h.Params {
+				if i < len(call.Call.Args) {
+					bind[p] = call.Call.Args[i]
+				}
+			}
+			undo := ir.SetOverride(bind)
+			defer undo()
+			fn, loops = h, ir.Loops(h)
+		}
+	}
 	if len(loops) != 1 || loops[0].Ranged == nil {
 		r.Unknown("runningCount: one range loop", e.Pos(fn.Pos()), sprintf("found %d loops", len(loops)))
 		return
 	}
 	l := loops[0]
 	p, okp := e.C.PathOf(l.Ranged)
+	if pr, isP := ir.Resolve(l.Ranged).(*ssa.Parameter); isP && ir.Bound(pr) != nil {
+		p, okp = e.C.PathOf(ir.Bound(pr))
+	}
 	allNodes := false
 	for _, an := range e.graphRoles().AllNodes {
 		if okp && p.Suffix(an) {
@@ -177,10 +195,7 @@ func c15CountTable(e *Env, s *Sched) {
 		r.Unknown("runningCount: counter accumulator", e.Pos(fn.Pos()), "no int accumulator phi at the loop header")
 		return
 	}
-	isElemStatus := func(v ssa.Value) bool {
-		pp, ok := e.C.PathOf(v)
-		return ok && pp.Suffix("State.Status")
-	}
+	isElemStatus := func(v ssa.Value) bool { return e.isStatusValue(v) }
 	running := s.val("NodeStatusRunning")
 	// each back edge: either unchanged (status != Running) or +1 (status == Running)
 	var visit func(v ssa.Value, blk *ssa.BasicBlock, k int, d int)
@@ -318,4 +333,25 @@ func onlyViaLoopExit(fn *ssa.Function, l *ir.Loop, b *ssa.BasicBlock) bool {
 	}
 	reach := ir.BlocksReachableFrom(fn.Blocks[0], func(from *ssa.BasicBlock, idx int) bool { return from == l.Header && idx == exitIdx })
 	return !reach[b] && b != fn.Blocks[0]
+}
+
+// forwardsTo: f only hands on the result of one call (single block, `return h(args)`):
+// the callee (with a body - also an instance of a generic function) and the call.
+func forwardsTo(f *ssa.Function) (*ssa.Function, *ssa.Call) {
+	if len(f.Blocks) != 1 {
+		return nil, nil
+	}
+	rt, ok := f.Blocks[0].Instrs[len(f.Blocks[0].Instrs)-1].(*ssa.Return)
+	if !ok || len(rt.Results) != 1 {
+		return nil, nil
+	}
+	c, ok := ir.Resolve(rt.Results[0]).(*ssa.Call)
+	if !ok {
+		return nil, nil
+	}
+	h := c.Call.StaticCallee()
+	if h == nil || h.Blocks == nil {
+		return nil, nil
+	}
+	return h, c
 }
